@@ -23,7 +23,10 @@
     * the tokenizer oracle itself (regexes of the body terminals, contextual lexer); edits *inside* a token (`_AND`/`_OR`
       absorb the preceding line break; multi-line strings) are outside these statements;
     * the 1 900-line Colang 1.0 parser only *comparing* indentation levels of `get_numbered_lines`' output;
-    * "never a hang".
+    * "never a hang" inside the parsers (regex back-tracking, the Colang 1.0 line loop).  The LOADER's own loops are proved:
+      `load_imports_terminates`, `config_load_terminates` (the import fix-point of `_load_imported_paths` and the parse loop of
+      `_parse_colang_files_recursively` end for every finite import graph - cycles, self-imports, repeated imports included),
+      with the exact role of the de-duplicating join (`load_imports_returns_only_if_nodup`, `seeded_join_never_returns`).
 
   Full statement kept visible (not provable from these models):
     theorem parse_layout_invariant : ∀ text edit, LayoutPreserving edit → parse (edit text) = parse text
@@ -35,6 +38,7 @@ import NemoVerif.Lemmas.NumberedScale
 import NemoVerif.Lemmas.PreExpand
 import NemoVerif.Lemmas.TextLayout
 import NemoVerif.Models.ErrWrap
+import NemoVerif.Lemmas.ImportLoop
 
 namespace NemoVerif.C13
 open NemoVerif NemoVerif.Layout NemoVerif.ErrWrap
@@ -825,5 +829,248 @@ theorem errwrap_as_is_partial (e : Exc) (he : e.isException = true) (version pat
 /-- non-vacuity of `PositionOk`: lark's `UnexpectedCharacters` at line 2, column 3. -/
 example : PositionOk { cls := "UnexpectedCharacters", isException := true, isValueError := false, line := .int 2, column := .int 3, str := "x" } ["a", "b"] := by
   refine ⟨⟨2, rfl, by decide⟩, Or.inr ⟨3, rfl⟩⟩
+
+/-! ## "never a hang": the import fix-point loops of `RailsConfig.from_path` (Models/ImportLoop.lean)
+
+  `U` is any finite list of import paths that contains the paths the configuration starts from and is closed under
+  "listed in a `.yml` of what a path resolves to" (`YmlClosed`) and "imported by a `.co` file a path brings in" (`CoClosed`).
+  For a file system such a `U` always exists (the import paths occurring in finitely many files); cycles, self-imports and
+  repeated imports do not matter.  Fuel is only a bound: the result does not depend on it (`∃ r, ∀ n ≥ bound`). -/
+end NemoVerif.C13
+
+namespace NemoVerif.C13
+open NemoVerif NemoVerif.ImportLoop
+
+/-- `_load_imported_paths` ends - whatever the import graph looks like, as long as it is finite - and needs at most one
+    pass of its `for` loop: the result is the same for every fuel ≥ |U| + 3. -/
+theorem load_imports_terminates (w : World) (U : List String) (hU : YmlClosed w U) (s : St) (hi : Inv U s) :
+    ∃ r, ∀ n, U.length + 3 ≤ n → whileLoop w n s = some r := by
+  obtain ⟨r, hr, _⟩ := whileLoop_terminates hU s hi (U.length + 3) (Nat.le_refl _)
+  exact ⟨r, fun n hn => whileLoop_mono_le hr hn⟩
+
+/-- and when it returns: every import path is imported (the two lengths the `while` test compares are equal because the two
+    collections have the same elements, not by accident), the list still has no repetition, and it only grew at the end. -/
+theorem load_imports_complete (w : World) (U : List String) (hU : YmlClosed w U) (s s' : St) (hi : Inv U s) (n : Nat)
+    (h : whileLoop w n s = some (.ok s')) :
+    (∀ x ∈ s'.importPaths, x ∈ s'.keys) ∧ s'.importPaths.Nodup ∧ s'.imported.length = s'.importPaths.length ∧
+      ∃ t, s'.importPaths = s.importPaths ++ t := by
+  obtain ⟨r, hr, hrs⟩ := whileLoop_terminates hU s hi (max n (U.length + 3)) (Nat.le_max_right _ _)
+  have h' := whileLoop_mono_le h (Nat.le_max_left n (U.length + 3))
+  rw [h'] at hr; injection hr with hr
+  obtain ⟨hi', hall, _, t, ht⟩ := hrs s' hr.symm
+  exact ⟨hall, hi'.nodup, lengths_eq_of_all_marked hi' hall, t, ht⟩
+
+/-- non-vacuity of `load_imports_terminates` / `config_load_terminates`: two modules importing each other, one of them twice,
+    a module importing itself, the same library listed twice in a `.yml`. -/
+def demoWorld : World where
+  resolve p :=
+    if p = "a" then some ("lib/a.co", [.co 1])
+    else if p = "b" then some ("lib/b.co", [.co 2])
+    else if p = "pkg" then some ("lib/pkg", [.yml ["pkg", "a", "a"], .co 3])
+    else none
+  parse f :=
+    if f = 0 then some ["a", "a", "pkg"]      -- main.co: `import a` twice
+    else if f = 1 then some ["b"]
+    else if f = 2 then some ["a", "a", "b"]   -- b imports a (cycle), twice, and itself
+    else if f = 3 then some []
+    else none
+
+def demoU : List String := ["a", "b", "pkg"]
+
+theorem demo_ymlClosed : YmlClosed demoWorld demoU := by
+  intro p hp actual items hr
+  simp [demoU] at hp
+  rcases hp with rfl | rfl | rfl <;> simp [demoWorld] at hr <;> obtain ⟨_, rfl⟩ := hr <;> simp [ymlPaths, demoU]
+
+theorem demo_coClosed : CoClosed demoWorld demoU := by
+  intro p hp actual items hr f hf ips hps
+  simp [demoU] at hp
+  rcases hp with rfl | rfl | rfl <;> simp [demoWorld] at hr <;> obtain ⟨_, rfl⟩ := hr <;> simp [coFiles] at hf <;> subst hf <;>
+    simp [demoWorld] at hps <;> subst hps <;> simp [demoU]
+
+/-- The loader's loops end on every configuration directory with a finite import graph: `from_path` either fails with the
+    error of an unresolvable import / an unparsable file, or returns with every file parsed and every import imported.
+    Fuel bound: (files of the directory + files of all importable paths) + |U| + 4. -/
+theorem config_load_terminates (w : World) (U : List String) (hU : YmlClosed w U) (hC : CoClosed w U) (items : List Item)
+    (hy : ymlPaths items ⊆ U) (hf : ∀ f ∈ coFiles items, ∀ ips, w.parse f = some ips → ips ⊆ U) :
+    ∃ r, (∀ n, total w U (initSt items) + U.length + 4 ≤ n → fromPath w n items = some r) ∧ ∀ s', r = .ok s' → Done U s' := by
+  obtain ⟨r, hr, hd⟩ := fromPath_terminates hU hC items hy hf _ (Nat.le_refl _)
+  refine ⟨r, ?_, hd⟩
+  intro n hn
+  exact fromPath_mono_le hr hn
+
+example : ymlPaths [Item.co 0] ⊆ demoU ∧ ∀ f ∈ coFiles [Item.co 0], ∀ ips, demoWorld.parse f = some ips → ips ⊆ demoU := by
+  refine ⟨by simp [ymlPaths], ?_⟩
+  intro f hf ips hps
+  simp [coFiles] at hf; subst hf
+  simp [demoWorld] at hps; subst hps; simp [demoU]
+
+/-- the form that is checked on every run: the driver evaluates `closedWorld` on the world read off the real file tree (U = the
+    import paths that occur in it) and runs `fromPath` with more fuel than the bound; the harness compares the result with what
+    the real `RailsConfig.from_path` did. -/
+theorem config_load_terminates_checked (w : World) (U : List String) (items : List Item) (h : closedWorld w U items = true) :
+    ∃ r, (∀ n, total w U (initSt items) + U.length + 4 ≤ n → fromPath w n items = some r) ∧ ∀ s', r = .ok s' → Done U s' := by
+  obtain ⟨hU, hC, hy, hf⟩ := closedWorld_sound h
+  exact config_load_terminates w U hU hC items hy hf
+
+example : closedWorld demoWorld demoU [Item.co 0] = true := by decide
+
+/-- the demo configuration really loads (cycle, self-import, repeated imports): 4 files parsed, 3 paths imported -/
+def demoResult : St := { importPaths := ["a", "pkg", "b"], imported := [("a", "lib/a.co"), ("pkg", "lib/pkg"), ("b", "lib/b.co")], files := [0, 1, 3, 2], parsed := 4 }
+
+example : fromPath demoWorld 12 [Item.co 0] = some (.ok demoResult) := by decide
+
+/-- `RailsConfig.from_content` (main content + YAML) ends under the same hypotheses: one fuel-independent result. -/
+theorem content_load_terminates (w : World) (U : List String) (hU : YmlClosed w U) (hC : CoClosed w U) (yml : List String) (main : Nat)
+    (hy : yml ⊆ U) (hf : ∀ ips, w.parse main = some ips → ips ⊆ U) :
+    ∃ r, (∀ n, 1 + pend w [] U + U.length + 4 ≤ n → fromContent w n yml main = some r) ∧ ∀ s', r = .ok s' → Done U s' := by
+  obtain ⟨r, hr, hd⟩ := fromContent_terminates hU hC yml main hy hf _ (Nat.le_refl _)
+  exact ⟨r, fun n hn => fromContent_mono_le hr hn, hd⟩
+
+example : (["a", "a"] : List String) ⊆ demoU ∧ ∀ ips, demoWorld.parse 0 = some ips → ips ⊆ demoU := by
+  refine ⟨by simp [demoU], ?_⟩
+  intro ips hps
+  simp [demoWorld] at hps; subst hps; simp [demoU]
+
+/-- What a successful load has loaded is CLOSED - the fix-point really is one (∀ world, ∀ fuel, no hypothesis): the result
+    contains the import paths and files of the directory; every imported path resolved, and its `.yml` import paths and its `.co`
+    files are in; every parsed file's imports are in.  -/
+theorem config_load_closed (w : World) (n : Nat) (items : List Item) (s' : St) (h : fromPath w n items = some (.ok s')) :
+    Cl w s' ∧ ymlPaths items ⊆ s'.importPaths ∧ coFiles items ⊆ s'.files :=
+  fromPath_cl n items s' h
+
+/-- ... and, with termination: whenever the loader returns, EVERYTHING reachable from the directory is loaded - every import
+    path of the final list resolved and brought in its `.yml` imports and its files, every file of the final list was parsed and
+    contributed its imports.  (This is the statement behind the composition clause of the search oracle.) -/
+theorem config_load_loads_everything (w : World) (U : List String) (hU : YmlClosed w U) (hC : CoClosed w U) (items : List Item)
+    (hy : ymlPaths items ⊆ U) (hf : ∀ f ∈ coFiles items, ∀ ips, w.parse f = some ips → ips ⊆ U)
+    (n : Nat) (s' : St) (h : fromPath w n items = some (.ok s')) :
+    (ymlPaths items ⊆ s'.importPaths ∧ coFiles items ⊆ s'.files) ∧
+    (∀ p ∈ s'.importPaths, ∃ a its, w.resolve p = some (a, its) ∧ ymlPaths its ⊆ s'.importPaths ∧ coFiles its ⊆ s'.files) ∧
+    (∀ f ∈ s'.files, ∀ ips, w.parse f = some ips → ips ⊆ s'.importPaths) := by
+  obtain ⟨hcl, hr₁, hr₂⟩ := fromPath_cl n items s' h
+  obtain ⟨r, hr, hd⟩ := config_load_terminates w U hU hC items hy hf
+  have hbig := hr (max n (total w U (initSt items) + U.length + 4)) (Nat.le_max_right _ _)
+  have hn : fromPath w (max n (total w U (initSt items) + U.length + 4)) items = some (.ok s') :=
+    fromPath_mono_le h (Nat.le_max_left _ _)
+  rw [hn] at hbig
+  injection hbig with hbig
+  have hdone := hd s' hbig.symm
+  refine ⟨⟨hr₁, hr₂⟩, ?_, ?_⟩
+  · intro p hp
+    have hk := hdone.allImported p hp
+    simp only [St.keys, List.mem_map] at hk
+    obtain ⟨⟨q, a⟩, hqa, rfl⟩ := hk
+    obtain ⟨its, h₁, h₂, h₃⟩ := hcl.imp q a hqa
+    exact ⟨a, its, h₁, h₂, h₃⟩
+  · intro f hfm ips hps
+    obtain ⟨i, hi, hfi⟩ := List.getElem_of_mem hfm
+    have hi' : i < s'.parsed := by rw [hdone.allParsed]; exact hi
+    exact hcl.par i f hi' (by rw [List.getElem?_eq_getElem hi, hfi]) ips hps
+
+/-- As-is characterisation of the exit test `len(imported_paths) == len(import_paths)`: it compares a dict with a list, so
+    the loop can return ONLY IF the list has no repetition - the de-duplication in `_join_config` is what termination rests
+    on.  (∀ world, ∀ fuel; keys of the dict are distinct and come from the list, as in every reachable state.) -/
+theorem load_imports_returns_only_if_nodup (w : World) (s s' : St) (hk : s.keys.Nodup) (hs : s.keys ⊆ s.importPaths) (n : Nat)
+    (h : whileLoop w n s = some (.ok s')) : s.importPaths.Nodup := by
+  by_contra hd
+  exact whileLoop_dup n s s' ⟨hd, hk, hs⟩ h
+
+/-- the append-if-absent join removes repetitions INSIDE the joined list too ... -/
+theorem join_paths_nodup (d a : List String) (h : d.Nodup) : (joinPaths d a).Nodup := joinPaths_nodup a h
+
+theorem join_paths_mem (d a : List String) (x : String) : x ∈ joinPaths d a ↔ (x ∈ d ∨ x ∈ a) :=
+  ⟨joinPaths_mem_only d a x, joinPaths_mem d a x⟩
+
+/-- ... so writing an import a second time (anywhere behind the first one) changes nothing at all -/
+theorem join_duplicate_import_noop (d a₁ a₂ a₃ : List String) (p : String) :
+    joinPaths d (a₁ ++ p :: a₂ ++ p :: a₃) = joinPaths d (a₁ ++ p :: a₂ ++ a₃) := by
+  have happ : ∀ d x y, joinPaths d (x ++ y) = joinPaths (joinPaths d x) y := by
+    intro d x y; simp [joinPaths, List.foldl_append]
+  have hmem : p ∈ joinPaths d (a₁ ++ p :: a₂) := joinPaths_mem d _ p (Or.inr (by simp))
+  have hstep : joinStep (joinPaths d (a₁ ++ p :: a₂)) p = joinPaths d (a₁ ++ p :: a₂) := by simp [joinStep, hmem]
+  calc joinPaths d (a₁ ++ p :: a₂ ++ p :: a₃) = joinPaths d ((a₁ ++ p :: a₂) ++ (p :: a₃)) := by simp
+    _ = joinPaths (joinPaths d (a₁ ++ p :: a₂)) (p :: a₃) := happ _ _ _
+    _ = joinPaths (joinPaths d (a₁ ++ p :: a₂)) a₃ := by rw [joinPaths_cons, hstep]
+    _ = joinPaths d ((a₁ ++ p :: a₂) ++ a₃) := (happ _ _ _).symm
+    _ = joinPaths d (a₁ ++ p :: a₂ ++ a₃) := by simp
+
+/-- the join of the seeded change C13-d keeps a repetition inside the joined list ... -/
+example : joinFilter [] ["core", "core"] = ["core", "core"] := by decide
+example : joinPaths [] ["core", "core"] = ["core"] := by decide
+
+/-- ... and from such a list `_load_imported_paths` never returns: for every world and every fuel it runs out of fuel
+    (spins) or stops with an unresolvable import. -/
+theorem seeded_join_never_returns (w : World) (n : Nat) (s' : St) :
+    whileLoop w n { importPaths := joinFilter [] ["core", "core"], imported := [], files := [0], parsed := 1 } ≠ some (.ok s') := by
+  apply whileLoop_dup
+  refine ⟨by decide, by simp [St.keys], by simp [St.keys]⟩
+
+/-- (with a world in which `core` resolves it is the spin: out of fuel for EVERY fuel) -/
+theorem seeded_join_spins (n : Nat) :
+    whileLoop { resolve := fun _ => some ("core.co", [.co 1]), parse := fun _ => some [] } n
+      { importPaths := joinFilter [] ["core", "core"], imported := [], files := [0], parsed := 1 } = none := by
+  have key : ∀ (n : Nat) (s : St), DupInv s →
+      whileLoop { resolve := fun _ => some ("core.co", [.co 1]), parse := fun _ => some [] } n s = none := by
+    intro n
+    induction n with
+    | zero => intro s _; rfl
+    | succ n ih =>
+      intro s hd
+      cases hw : whileLoop { resolve := fun _ => some ("core.co", [.co 1]), parse := fun _ => some [] } (n + 1) s with
+      | none => rfl
+      | some r =>
+        exfalso
+        cases r with
+        | ok s' => exact whileLoop_dup _ s s' hd hw
+        | error e =>
+          -- no error is possible in this world: every path resolves
+          have noerr : ∀ (m i : Nat) (t : St) (e : Err),
+              forLoop { resolve := fun _ => some ("core.co", [.co 1]), parse := fun _ => some [] } m i t ≠ some (.error e) := by
+            intro m
+            induction m with
+            | zero => intro i t e h; simp [forLoop] at h
+            | succ m ihm =>
+              intro i t e h
+              unfold forLoop at h
+              cases hg : t.importPaths[i]? with
+              | none => rw [hg] at h; simp at h
+              | some p =>
+                rw [hg] at h; simp only at h
+                cases hv : visit { resolve := fun _ => some ("core.co", [.co 1]), parse := fun _ => some [] } t p with
+                | error e' => unfold visit at hv; split at hv <;> simp at hv
+                | ok t₁ => rw [hv] at h; exact ihm (i + 1) t₁ e h
+          unfold whileLoop at hw
+          have hlt := length_lt_of_dup hd.knodup hd.ksub hd.dup
+          rw [keys_length] at hlt
+          rw [if_neg (by omega)] at hw
+          cases hf : forLoop { resolve := fun _ => some ("core.co", [.co 1]), parse := fun _ => some [] } n 0 s with
+          | none => rw [hf] at hw; simp at hw
+          | some r₁ =>
+            rw [hf] at hw
+            cases r₁ with
+            | error e₁ => exact noerr n 0 s e₁ hf
+            | ok s₁ =>
+              simp only at hw
+              rw [ih s₁ (forLoop_dup n 0 s s₁ hd hf)] at hw
+              simp at hw
+  exact key n _ ⟨by decide, by simp [St.keys], by simp [St.keys]⟩
+
+
+/-- non-vacuity of `load_imports_terminates` / `load_imports_complete` / `load_imports_returns_only_if_nodup`: a reachable state in
+    the middle of a load (one path imported, one pending) satisfies `Inv`, and `_load_imported_paths` returns from it -/
+def demoMid : St := { importPaths := ["a", "pkg"], imported := [("a", "lib/a.co")], files := [0, 1], parsed := 1 }
+def demoMid' : St := { importPaths := ["a", "pkg"], imported := [("a", "lib/a.co"), ("pkg", "lib/pkg")], files := [0, 1, 3], parsed := 1 }
+
+example : Inv demoU demoMid :=
+  ⟨by decide, by simp [demoMid, demoU], by decide, by simp [demoMid, St.keys]⟩
+
+example : whileLoop demoWorld 6 demoMid = some (.ok demoMid') := by decide
+
+/-- `config_load_loads_everything` instantiated at the demo configuration -/
+example : ∀ f ∈ demoResult.files, ∀ ips, demoWorld.parse f = some ips → ips ⊆ demoResult.importPaths :=
+  (config_load_loads_everything demoWorld demoU demo_ymlClosed demo_coClosed [Item.co 0]
+    (by simp [ymlPaths]) (by intro f hf ips hps; simp [coFiles] at hf; subst hf; simp [demoWorld] at hps; subst hps; simp [demoU])
+    12 demoResult (by decide)).2.2
 
 end NemoVerif.C13
